@@ -1,19 +1,25 @@
 //! C15 — concurrent readers see acknowledged writes and never go backwards.
 //!
-//! Model checking at seam granularity (hook H2).  The writer thread executes a fixed script: two
-//! acknowledged appends that fill the live segment, then a third append that triggers a rollover.
-//! During the third append the writer is stopped at every pause point, in order:
+//! Model checking at seam granularity (hook H2).  Family A: the writer thread executes one append
+//! that triggers a rollover and is stopped at every pause point it reaches, in the order in which it
+//! reaches them (the sequence is discovered by a dry run, not assumed).  Two scenarios:
 //!
-//!   issue -> sync:after-fsync -> rollover:after-sync -> rollover:before-index-swap ->
-//!   rollover:after-index-swap -> rollover:between-add-segments -> rollover:end ->
-//!   append:before-write -> sync:after-fsync -> append:after-write -> append:before-reply -> done
+//!   * `Rollover` (sync after every write): two acknowledged appends fill the live segment, the third
+//!     append rolls it over;
+//!   * `DeferredRollover` (sync every 2 events): an acknowledged two-event transaction, then an
+//!     append A that is written but not yet synced (its call is pending), then a two-event
+//!     transaction B that does not fit: the rollover's sync acknowledges A while the writer is still
+//!     inside the rollover; B's own sync acknowledges B.
 //!
 //! A reader program is a short sequence of public calls; a call may additionally be split in two at
 //! one of its internal pause points (between the segment-id load and the index read of an iterator,
 //! between the live-index lookup and the reader-pool lookup of a point read, between the cache read
 //! and the pool read of a segment iterator).  Every merge order of the reader's (half-)steps with
-//! the writer's positions is executed.
+//! the writer's positions is executed.  An event must be visible to every call that starts after the
+//! append call that wrote it has returned.
 
+use std::sync::Arc;
+use std::sync::atomic::{AtomicBool, Ordering};
 use std::sync::mpsc;
 use std::time::Duration;
 
@@ -29,7 +35,8 @@ use vcommon::{Args, Tier};
 use crate::harness::*;
 use crate::{Plan, drive};
 
-pub const WRITER_POINTS: [&str; 10] = [
+/// The pause points of the writer thread (a set: the order in which an append reaches them is discovered).
+pub const WRITER_LABELS: [&str; 9] = [
     "sync:after-fsync",
     "rollover:after-sync",
     "rollover:before-index-swap",
@@ -37,22 +44,60 @@ pub const WRITER_POINTS: [&str; 10] = [
     "rollover:between-add-segments",
     "rollover:end",
     "append:before-write",
-    "sync:after-fsync",
     "append:after-write",
     "append:before-reply",
 ];
-/// writer positions: 0 = third append not yet issued, i in 1..=10 = parked at WRITER_POINTS[i-1], 11 = acknowledged
-pub const N_POS: usize = WRITER_POINTS.len() + 2;
+
+#[derive(Serialize, Deserialize, Clone, Copy, Debug, PartialEq, Eq, Hash, Default)]
+pub enum Scenario {
+    #[default]
+    Rollover,
+    DeferredRollover,
+}
+
+impl Scenario {
+    fn sync(self) -> SyncMode {
+        match self {
+            Scenario::Rollover => SyncMode::EveryWrite,
+            Scenario::DeferredRollover => SyncMode::EveryEvents(2),
+        }
+    }
+    /// number of events on stream s0 once everything is acknowledged
+    pub fn n_events(self) -> usize {
+        match self {
+            Scenario::Rollover => 3,
+            Scenario::DeferredRollover => 5,
+        }
+    }
+    /// index of the first event of the append that is stepped through
+    pub fn first_stepped(self) -> usize {
+        match self {
+            Scenario::Rollover => 2,
+            Scenario::DeferredRollover => 3,
+        }
+    }
+    /// prefixes of the event list that do not cut a transaction
+    fn tx_boundaries(self) -> &'static [usize] {
+        match self {
+            Scenario::Rollover => &[0, 1, 2, 3],
+            Scenario::DeferredRollover => &[0, 2, 3, 5],
+        }
+    }
+}
+
+fn ten() -> usize {
+    10
+}
 
 #[derive(Serialize, Deserialize, Clone, Copy, Debug, PartialEq, Eq, Hash)]
 pub enum Call {
-    ReadEvent(u8), // 0/1 = events of the two acknowledged appends, 2 = the event of the third append
+    ReadEvent(u8), // index into the scenario's event list
     StreamVersion,
     PartitionSequence,
     StreamScan,
     PartitionScan,
     ReverseStreamScan,
-    /// forward scans that start at the position of the third append's event
+    /// forward scans that start at the position of the first event of the append that is stepped through
     StreamScanFrom2,
     PartitionScanFrom2,
 }
@@ -70,6 +115,12 @@ pub struct Step {
 
 #[derive(Serialize, Deserialize, Clone, Debug)]
 pub struct Case {
+    #[serde(default)]
+    pub scenario: Scenario,
+    /// number of pause points the stepped append reaches (from the dry run); positions are 0 = not yet issued,
+    /// i in 1..=n_parks = parked at the i-th of them, n_parks + 1 = its call has returned
+    #[serde(default = "ten")]
+    pub n_parks: usize,
     pub compression: bool,
     pub steps: Vec<Step>,
     /// family B (long-lived iterator across whole appends and rollovers); `steps` is empty then
@@ -127,54 +178,72 @@ fn static_label(s: &str) -> &'static str {
     vcommon::machinery_fail(&format!("unknown split label {s}"))
 }
 
-pub fn cases(tier: Tier) -> Vec<Case> {
-    let calls = [
-        Call::ReadEvent(0),
-        Call::ReadEvent(1),
-        Call::ReadEvent(2),
-        Call::StreamVersion,
-        Call::PartitionSequence,
-        Call::StreamScan,
-        Call::PartitionScan,
-        Call::ReverseStreamScan,
-        Call::StreamScanFrom2,
-        Call::PartitionScanFrom2,
-    ];
+pub fn cases(tier: Tier, parks: &[(Scenario, usize)]) -> Vec<Case> {
     let mut v = Vec::new();
     let comps: Vec<bool> = if tier.is_thorough() { vec![true, false] } else { vec![true] };
-    for &compression in &comps {
-        // one call, unsplit, at every writer position
-        for &c in &calls {
-            for at in 0..N_POS {
-                v.push(Case { compression, iter: None, steps: vec![Step { call: c, split: None, at, resume_at: at }] });
+    for &(scenario, n_parks) in parks {
+        let n_pos = n_parks + 2;
+        let calls: Vec<Call> = match scenario {
+            Scenario::Rollover => vec![
+                Call::ReadEvent(0),
+                Call::ReadEvent(1),
+                Call::ReadEvent(2),
+                Call::StreamVersion,
+                Call::PartitionSequence,
+                Call::StreamScan,
+                Call::PartitionScan,
+                Call::ReverseStreamScan,
+                Call::StreamScanFrom2,
+                Call::PartitionScanFrom2,
+            ],
+            // #2 = A (acknowledged by the rollover's sync), #3/#4 = the transaction that is stepped through
+            Scenario::DeferredRollover => vec![Call::ReadEvent(2), Call::ReadEvent(4), Call::StreamVersion, Call::PartitionSequence, Call::StreamScan, Call::PartitionScan, Call::ReverseStreamScan],
+        };
+        let deferred = scenario == Scenario::DeferredRollover;
+        for &compression in &comps {
+            if deferred && !compression && !tier.is_thorough() {
+                continue;
             }
-            // one call split at each of its internal points: all (start, resume) pairs
-            for s in splits_for(c) {
-                for at in 0..N_POS {
-                    for resume_at in at..N_POS {
-                        // quick: far-apart (start, resume) pairs only for the split whose two halves read two different
-                        // pieces of published state (segment id, then index)
-                        if !tier.is_thorough() && resume_at > at + 4 && s != "iter:after-segment-id-load" {
-                            continue;
+            let mk = |steps: Vec<Step>| Case { scenario, n_parks, compression, iter: None, steps };
+            // one call, unsplit, at every writer position
+            for &c in &calls {
+                for at in 0..n_pos {
+                    v.push(mk(vec![Step { call: c, split: None, at, resume_at: at }]));
+                }
+                // one call split at each of its internal points: all (start, resume) pairs
+                for s in splits_for(c) {
+                    for at in 0..n_pos {
+                        for resume_at in at..n_pos {
+                            // quick: far-apart (start, resume) pairs only for the split whose two halves read two different
+                            // pieces of published state (segment id, then index)
+                            if !tier.is_thorough() && resume_at > at + if deferred { 2 } else { 4 } && (deferred || s != "iter:after-segment-id-load") {
+                                continue;
+                            }
+                            v.push(mk(vec![Step { call: c, split: Some(s.to_string()), at, resume_at }]));
                         }
-                        v.push(Case { compression, iter: None, steps: vec![Step { call: c, split: Some(s.to_string()), at, resume_at }] });
                     }
                 }
             }
-        }
-        // two unsplit calls: all ordered position pairs (monotonicity between the two observations)
-        let pair_calls: Vec<Call> = if tier.is_thorough() { calls.to_vec() } else { vec![Call::ReadEvent(0), Call::StreamVersion, Call::StreamScan, Call::PartitionSequence] };
-        for &c1 in &pair_calls {
-            for &c2 in &pair_calls {
-                if !tier.is_thorough() && c1 != c2 {
-                    continue;
-                }
-                for a in 0..N_POS {
-                    for b in a..N_POS {
-                        if a == b {
-                            continue;
+            // two unsplit calls: all ordered position pairs (monotonicity between the two observations)
+            let pair_calls: Vec<Call> = if deferred {
+                if tier.is_thorough() { calls.clone() } else { vec![Call::ReadEvent(2), Call::StreamVersion] }
+            } else if tier.is_thorough() {
+                calls.clone()
+            } else {
+                vec![Call::ReadEvent(0), Call::StreamVersion, Call::StreamScan, Call::PartitionSequence]
+            };
+            for &c1 in &pair_calls {
+                for &c2 in &pair_calls {
+                    if !tier.is_thorough() && c1 != c2 {
+                        continue;
+                    }
+                    for a in 0..n_pos {
+                        for b in a..n_pos {
+                            if a == b {
+                                continue;
+                            }
+                            v.push(mk(vec![Step { call: c1, split: None, at: a, resume_at: a }, Step { call: c2, split: None, at: b, resume_at: b }]));
                         }
-                        v.push(Case { compression, iter: None, steps: vec![Step { call: c1, split: None, at: a, resume_at: a }, Step { call: c2, split: None, at: b, resume_at: b }] });
                     }
                 }
             }
@@ -204,7 +273,7 @@ fn iter_cases(tier: Tier) -> Vec<Case> {
                         for &r0 in &r0s {
                             for m0 in if thorough { vec![1usize, 2, 3, 4] } else { vec![2usize, 4] } {
                                 for (r1, m1) in if thorough { vec![(0usize, 0usize), (1, 2), (2, 1)] } else { vec![(0usize, 0usize), (1, 2)] } {
-                                    v.push(Case { compression: true, steps: vec![], iter: Some(IterCase { kind, from, batch, mix, pre, reads: [r0, r1], mids: [m0, m1] }) });
+                                    v.push(Case { scenario: Scenario::Rollover, n_parks: 0, compression: true, steps: vec![], iter: Some(IterCase { kind, from, batch, mix, pre, reads: [r0, r1], mids: [m0, m1] }) });
                                 }
                             }
                         }
@@ -377,7 +446,7 @@ pub enum Obs {
     Error(String),
 }
 
-fn do_call(rt: &tokio::runtime::Runtime, db: &Database, c: Call, ids: &[Uuid; 3]) -> Obs {
+fn do_call(rt: &tokio::runtime::Runtime, db: &Database, c: Call, ids: &[Uuid], first_stepped: u64) -> Obs {
     let part = partition_of(0);
     let r = rt.block_on(async {
         tokio::time::timeout(Duration::from_secs(20), async {
@@ -398,7 +467,7 @@ fn do_call(rt: &tokio::runtime::Runtime, db: &Database, c: Call, ids: &[Uuid; 3]
                     let mut out = Vec::new();
                     let res: Result<(), String> = async {
                         if matches!(c, Call::PartitionScan | Call::PartitionScanFrom2) {
-                            let from = if matches!(c, Call::PartitionScanFrom2) { 2 } else { 0 };
+                            let from = if matches!(c, Call::PartitionScanFrom2) { first_stepped } else { 0 };
                             let mut it = db.read_partition(part, from, IterDirection::Forward).await.map_err(|e| e.to_string())?;
                             while let Some(b) = it.next_batch(2).await.map_err(|e| e.to_string())? {
                                 for g in b {
@@ -408,7 +477,7 @@ fn do_call(rt: &tokio::runtime::Runtime, db: &Database, c: Call, ids: &[Uuid; 3]
                         } else {
                             let (from, dir) = match c {
                                 Call::StreamScan => (0, IterDirection::Forward),
-                                Call::StreamScanFrom2 => (2, IterDirection::Forward),
+                                Call::StreamScanFrom2 => (first_stepped, IterDirection::Forward),
                                 _ => (u64::MAX, IterDirection::Reverse),
                             };
                             let mut it = db.read_stream(part, StreamId::new("s0").unwrap(), from, dir).await.map_err(|e| e.to_string())?;
@@ -433,80 +502,207 @@ fn do_call(rt: &tokio::runtime::Runtime, db: &Database, c: Call, ids: &[Uuid; 3]
     r.unwrap_or(Obs::Error("read call did not return within 20 s".into()))
 }
 
+/// The append that is stepped through, one pause point at a time.
 struct Writer {
+    /// 0 = not issued, i = parked at the i-th pause point it reached, trail.len() + 1 = its call has returned
     pos: usize,
+    parked_at: Option<&'static str>,
+    trail: Vec<&'static str>,
+    done: bool,
     appender: Option<std::thread::JoinHandle<bool>>,
+    returned: Arc<AtomicBool>,
     db: Database,
     tx: Option<sierradb::database::Transaction>,
 }
 
+fn writer_hits() -> Vec<u64> {
+    WRITER_LABELS.iter().map(|l| pause::hits(l)).collect()
+}
+
 impl Writer {
-    fn advance_to(&mut self, target: usize) -> Result<(), String> {
-        while self.pos < target {
-            if self.pos == 0 {
+    fn new(db: Database, tx: sierradb::database::Transaction) -> Writer {
+        Writer { pos: 0, parked_at: None, trail: vec![], done: false, appender: None, returned: Arc::new(AtomicBool::new(false)), db, tx: Some(tx) }
+    }
+
+    /// One writer step: issue the append, or release the pause point it is parked at; then wait until it parks at
+    /// its next pause point (whichever that is) or its call returns.
+    fn step(&mut self) -> Result<(), String> {
+        if self.done {
+            return Ok(());
+        }
+        let before = writer_hits();
+        match self.parked_at.take() {
+            Some(l) => pause::release(l),
+            None => {
                 let db = self.db.clone();
                 let tx = self.tx.take().unwrap();
+                let returned = self.returned.clone();
                 self.appender = Some(std::thread::spawn(move || {
                     let rt = new_rt();
-                    matches!(rt.block_on(async move { tokio::time::timeout(Duration::from_secs(30), db.append_events(tx)).await }), Ok(Ok(_)))
+                    let ok = matches!(rt.block_on(async move { tokio::time::timeout(Duration::from_secs(30), db.append_events(tx)).await }), Ok(Ok(_)));
+                    returned.store(true, Ordering::SeqCst);
+                    ok
                 }));
-            } else if self.pos <= WRITER_POINTS.len() {
-                pause::release(WRITER_POINTS[self.pos - 1]);
             }
-            self.pos += 1;
-            if self.pos <= WRITER_POINTS.len() {
-                if !pause::wait_parked(WRITER_POINTS[self.pos - 1], Duration::from_secs(10)) {
-                    return Err(format!("the writer never reached {} (position {})", WRITER_POINTS[self.pos - 1], self.pos));
+        }
+        let deadline = std::time::Instant::now() + Duration::from_secs(15);
+        loop {
+            let now = writer_hits();
+            if let Some(i) = (0..now.len()).find(|&i| now[i] > before[i]) {
+                let l = WRITER_LABELS[i];
+                if !pause::wait_parked(l, Duration::from_secs(5)) {
+                    return Err(format!("the writer passed {l} without parking there"));
                 }
-            } else {
-                // acknowledged
+                self.parked_at = Some(l);
+                self.trail.push(l);
+                self.pos += 1;
+                return Ok(());
+            }
+            if self.returned.load(Ordering::SeqCst) {
                 let ok = self.appender.take().unwrap().join().unwrap_or(false);
-                if !ok {
-                    return Err("the third append failed or never returned".into());
-                }
+                self.done = true;
+                self.pos += 1;
+                return if ok { Ok(()) } else { Err("the stepped append failed".into()) };
             }
+            if std::time::Instant::now() > deadline {
+                return Err(format!("after position {} ({:?}) the writer neither reached a pause point nor returned within 15 s", self.pos, self.trail.last()));
+            }
+            std::thread::sleep(Duration::from_micros(30));
+        }
+    }
+
+    fn advance_to(&mut self, target: usize) -> Result<(), String> {
+        while self.pos < target && !self.done {
+            self.step()?;
         }
         Ok(())
     }
+
+    fn finish(&mut self) -> Result<(), String> {
+        while !self.done {
+            self.step()?;
+        }
+        Ok(())
+    }
+}
+
+/// Prepared scenario: database, ids of all events of stream s0 in order, per-event acknowledgement flags, and the
+/// writer for the append that is stepped through.
+struct Prepared {
+    h: H,
+    ids: Vec<Uuid>,
+    /// acked[i]: the append call that wrote event i has returned
+    acked: Vec<Arc<AtomicBool>>,
+    w: Writer,
+    pending: Vec<std::thread::JoinHandle<bool>>,
+}
+
+fn prepare(scenario: Scenario, compression: bool) -> Result<Prepared, String> {
+    pause::disable_all();
+    let cfg = DbCfg::simple(MIN_SEG, compression, scenario.sync());
+    let mut h = H::new(cfg, "c15").map_err(|e| format!("open: {e}"))?;
+    let yes = || Arc::new(AtomicBool::new(true));
+    let ev = |size| EvS { stream: 0, exp: ExpS::Any, size, bad: Bad::No };
+    let mut ids = Vec::new();
+    let mut acked = Vec::new();
+    let mut pending = Vec::new();
+    match scenario {
+        Scenario::Rollover => {
+            // two acknowledged appends that fill the live segment
+            for _ in 0..2 {
+                ids.push(event_id(0, h.counter + 1));
+                acked.push(yes());
+                h.append(&TxS::single(0, 0, Size::Block)).map_err(|p| format!("setup append: {}", p.detail))?;
+            }
+            ids.push(event_id(0, h.counter + 1));
+        }
+        Scenario::DeferredRollover => {
+            // an acknowledged two-event transaction (its second event triggers the group sync)
+            ids.push(event_id(0, h.counter + 1));
+            ids.push(event_id(0, h.counter + 2));
+            acked.push(yes());
+            acked.push(yes());
+            h.append(&TxS { pk: 0, events: vec![ev(Size::Block), ev(Size::Tiny)], exp_seq: ExpS::Any, conf: 0 }).map_err(|p| format!("setup append: {}", p.detail))?;
+            // A: written, not synced; its call stays pending until the next sync
+            ids.push(event_id(0, h.counter + 1));
+            let (_m, atx) = h.build(&TxS::single(0, 0, Size::Block));
+            let atx = atx?;
+            let flag = Arc::new(AtomicBool::new(false));
+            acked.push(flag.clone());
+            let written_before = pause::hits("append:before-reply");
+            let db = h.db().clone();
+            pending.push(std::thread::spawn(move || {
+                let rt = new_rt();
+                let ok = matches!(rt.block_on(async move { tokio::time::timeout(Duration::from_secs(60), db.append_events(atx)).await }), Ok(Ok(_)));
+                flag.store(ok, Ordering::SeqCst);
+                ok
+            }));
+            let deadline = std::time::Instant::now() + Duration::from_secs(10);
+            while pause::hits("append:before-reply") == written_before {
+                if std::time::Instant::now() > deadline {
+                    return Err("append A was not written within 10 s".into());
+                }
+                std::thread::sleep(Duration::from_micros(50));
+            }
+            // let the writer thread finish handling A (reply sent, back at its queue)
+            std::thread::sleep(Duration::from_millis(2));
+            if acked[2].load(Ordering::SeqCst) {
+                return Err("append A was acknowledged before any sync was due".into());
+            }
+            ids.push(event_id(0, h.counter + 1));
+            ids.push(event_id(0, h.counter + 2));
+        }
+    }
+    let stepped = match scenario {
+        Scenario::Rollover => TxS::single(0, 0, Size::Block),
+        Scenario::DeferredRollover => TxS { pk: 0, events: vec![ev(Size::Block), ev(Size::Tiny)], exp_seq: ExpS::Any, conf: 0 },
+    };
+    let (_m, rtx) = h.build(&stepped);
+    let w = Writer::new(h.db().clone(), rtx?);
+    while acked.len() < ids.len() {
+        acked.push(w.returned.clone());
+    }
+    for l in WRITER_LABELS {
+        pause::enable(l);
+    }
+    Ok(Prepared { h, ids, acked, w, pending })
+}
+
+/// Dry run: the sequence of pause points the stepped append of a scenario reaches.
+pub fn discover_trail(scenario: Scenario) -> Vec<&'static str> {
+    let mut p = prepare(scenario, true).unwrap_or_else(|e| vcommon::machinery_fail(&format!("C15 dry run ({scenario:?}): {e}")));
+    let r = p.w.finish();
+    pause::disable_all();
+    if let Err(e) = r {
+        vcommon::machinery_fail(&format!("C15 dry run ({scenario:?}): {e}"));
+    }
+    for t in p.pending.drain(..) {
+        let _ = t.join();
+    }
+    p.w.trail.clone()
 }
 
 pub fn run_case(case: &Case, out: &mut WorkerOut) {
     if let Some(ic) = &case.iter {
         return run_iter_case(case, ic, out);
     }
-    pause::disable_all();
-    let cfg = DbCfg::simple(MIN_SEG, case.compression, SyncMode::EveryWrite);
-    let mut h = match H::new(cfg, "c15") {
-        Ok(h) => h,
-        Err(e) => vcommon::machinery_fail(&format!("open: {e}")),
+    let sc = case.scenario;
+    let Prepared { h, ids, acked, mut w, pending } = match prepare(sc, case.compression) {
+        Ok(p) => p,
+        Err(e) => vcommon::machinery_fail(&format!("C15 setup ({sc:?}): {e}")),
     };
-    // two acknowledged appends that fill the live segment
-    let c0 = h.counter + 1;
-    if h.append(&TxS::single(0, 0, Size::Block)).is_err() {
-        out.outcome("setup-problem");
-        return;
-    }
-    let c1 = h.counter + 1;
-    if h.append(&TxS::single(0, 0, Size::Block)).is_err() {
-        out.outcome("setup-problem");
-        return;
-    }
-    let c2 = h.counter + 1;
-    let (_m, rtx) = h.build(&TxS::single(0, 0, Size::Block));
-    let ids = [event_id(0, c0), event_id(0, c1), event_id(0, c2)];
-    for l in WRITER_POINTS {
-        pause::enable(l);
-    }
-    let mut w = Writer { pos: 0, appender: None, db: h.db().clone(), tx: Some(rtx.unwrap()) };
+    let n_ev = ids.len();
 
     // the reader lives on its own thread so that a call parked at an internal pause point does not block the harness
     let (cmd_tx, cmd_rx) = mpsc::channel::<Call>();
     let (res_tx, res_rx) = mpsc::channel::<Obs>();
     let rdb = h.db().clone();
+    let rids = ids.clone();
+    let first_stepped = sc.first_stepped() as u64;
     let reader = std::thread::spawn(move || {
         let rt = new_rt();
         while let Ok(c) = cmd_rx.recv() {
-            let o = do_call(&rt, &rdb, c, &ids);
+            let o = do_call(&rt, &rdb, c, &rids, first_stepped);
             if res_tx.send(o).is_err() {
                 break;
             }
@@ -514,7 +710,8 @@ pub fn run_case(case: &Case, out: &mut WorkerOut) {
     });
 
     let case_json = serde_json::to_value(case).unwrap();
-    let mut observations: Vec<(Step, Obs, usize, usize)> = Vec::new(); // (step, obs, start pos, end pos)
+    // (step, observation, writer position at start, at end, events acknowledged when the call started)
+    let mut observations: Vec<(Step, Obs, usize, usize, Vec<bool>)> = Vec::new();
     let mut fail: Option<(String, String)> = None;
     let mut blocked_steps = 0u64;
     'steps: for st in &case.steps {
@@ -524,6 +721,7 @@ pub fn run_case(case: &Case, out: &mut WorkerOut) {
         }
         out.transitions += 1;
         let start_pos = w.pos;
+        let acked_now: Vec<bool> = acked.iter().map(|a| a.load(Ordering::SeqCst)).collect();
         let label = st.split.as_deref().map(static_label);
         if let Some(l) = label {
             pause::enable(l);
@@ -534,18 +732,18 @@ pub fn run_case(case: &Case, out: &mut WorkerOut) {
             // a reader that blocks on the live-index lock while the writer is parked inside the locked part of the
             // rollover is not enabled: move the writer on, one position at a time, until the call returns
             loop {
-                match res_rx.recv_timeout(Duration::from_millis(if w.pos == 0 || w.pos >= N_POS - 1 { 25_000 } else { 150 })) {
+                match res_rx.recv_timeout(Duration::from_millis(if w.pos == 0 || w.done { 25_000 } else { 150 })) {
                     Ok(o) => {
                         obs = Some(o);
                         break;
                     }
                     Err(_) => {
-                        if w.pos >= N_POS - 1 {
+                        if w.done || w.pos == 0 {
                             fail = Some(("reader-stuck".into(), format!("{:?} did not return", st.call)));
                             break 'steps;
                         }
                         blocked_steps += 1;
-                        if let Err(e) = w.advance_to(w.pos + 1) {
+                        if let Err(e) = w.step() {
                             fail = Some(("writer-stuck".into(), e));
                             break 'steps;
                         }
@@ -569,10 +767,10 @@ pub fn run_case(case: &Case, out: &mut WorkerOut) {
                     fail = Some(("reader-stuck".into(), format!("{:?} neither returned nor reached {l}", st.call)));
                     break 'steps;
                 }
-                if blocked_since.elapsed() > Duration::from_millis(150) && w.pos > 0 && w.pos < N_POS - 1 {
+                if blocked_since.elapsed() > Duration::from_millis(150) && w.pos > 0 && !w.done {
                     // blocked on the live-index lock held by the parked writer: not enabled here, move the writer on
                     blocked_steps += 1;
-                    if let Err(e) = w.advance_to(w.pos + 1) {
+                    if let Err(e) = w.step() {
                         fail = Some(("writer-stuck".into(), e));
                         break 'steps;
                     }
@@ -595,15 +793,15 @@ pub fn run_case(case: &Case, out: &mut WorkerOut) {
         let o = match obs {
             Some(o) => o,
             None => loop {
-                match res_rx.recv_timeout(Duration::from_millis(if w.pos >= N_POS - 1 { 25_000 } else { 150 })) {
+                match res_rx.recv_timeout(Duration::from_millis(if w.done { 25_000 } else { 150 })) {
                     Ok(o) => break o,
                     Err(_) => {
-                        if w.pos >= N_POS - 1 {
+                        if w.done {
                             fail = Some(("reader-stuck".into(), format!("{:?} did not return", st.call)));
                             break 'steps;
                         }
                         blocked_steps += 1;
-                        if let Err(e) = w.advance_to(w.pos + 1) {
+                        if let Err(e) = w.step() {
                             fail = Some(("writer-stuck".into(), e));
                             break 'steps;
                         }
@@ -611,64 +809,81 @@ pub fn run_case(case: &Case, out: &mut WorkerOut) {
                 }
             },
         };
-        observations.push((st.clone(), o, start_pos, w.pos));
+        observations.push((st.clone(), o, start_pos, w.pos, acked_now));
     }
     // let the writer finish
-    let finish = w.advance_to(N_POS - 1);
+    let finish = w.finish();
     pause::disable_all();
     drop(cmd_tx);
     let _ = reader.join();
+    let mut pending_ok = true;
+    for t in pending {
+        pending_ok &= t.join().unwrap_or(false);
+    }
     if fail.is_none() {
         if let Err(e) = finish {
             fail = Some(("writer-stuck".into(), e));
+        } else if !pending_ok {
+            fail = Some(("pending-append-failed".into(), "the append that was waiting for the group sync failed or never returned".into()));
+        } else if w.trail.len() != case.n_parks {
+            // the enumeration was built for another sequence of writer positions: the harness is not deterministic
+            vcommon::machinery_fail(&format!("C15: the dry run saw {} writer pause points, this execution {} ({:?})", case.n_parks, w.trail.len(), w.trail));
         }
     }
 
     // oracle
     let idv: Vec<u128> = ids.iter().map(|i| i.as_u128()).collect();
     let mut problems: Vec<(String, String)> = fail.into_iter().collect();
-    for (st, o, start_pos, end_pos) in &observations {
-        let acked_third = *start_pos >= N_POS - 1;
-        let wname = |p: usize| if p == 0 { "before-rollover".to_string() } else if p >= N_POS - 1 { "after-ack".to_string() } else { WRITER_POINTS[p - 1].to_string() };
+    let trail = w.trail.clone();
+    let wname = |p: usize| if p == 0 { "before-rollover".to_string() } else if p > trail.len() { "after-ack".to_string() } else { trail[p - 1].to_string() };
+    let sck = match sc {
+        Scenario::Rollover => String::new(),
+        Scenario::DeferredRollover => "deferred-sync/".to_string(),
+    };
+    for (st, o, start_pos, end_pos, acked_at_start) in &observations {
+        // events are acknowledged in order: the acknowledged ones form a prefix
+        let need = acked_at_start.iter().take_while(|a| **a).count();
         let window = if start_pos == end_pos { format!("at={}", wname(*start_pos)) } else { format!("split={}/resumed={}", st.split.clone().unwrap_or_default(), wname(*end_pos)) };
+        let posn = |got: &[u128]| -> Vec<String> { got.iter().map(|g| idv.iter().position(|x| x == g).map(|p| format!("#{p}")).unwrap_or("?".into())).collect() };
         match (st.call, o) {
-            (_, Obs::Error(e)) => problems.push((format!("read-error/{}/{window}", call_class(st.call)), format!("{:?} failed with a healthy disk: {e}", st.call))),
+            (_, Obs::Error(e)) => problems.push((format!("{sck}read-error/{}/{window}", call_class(st.call)), format!("{:?} failed with a healthy disk: {e}", st.call))),
             (Call::ReadEvent(i), Obs::Event(got)) => {
-                let must = i < 2 || acked_third;
-                if must && *got != Some(idv[i as usize]) {
-                    problems.push((format!("acked-event-not-visible/{window}"), format!("read_event of acknowledged event #{i} returned {got:?}")));
+                let i = i as usize;
+                if i < need && *got != Some(idv[i]) {
+                    problems.push((format!("{sck}acked-event-not-visible/{window}"), format!("read_event of acknowledged event #{i} returned {got:?}")));
                 }
                 if let Some(g) = got {
-                    if *g != idv[i as usize] {
-                        problems.push((format!("wrong-event/{window}"), format!("read_event of event #{i} returned another event")));
+                    if *g != idv[i] {
+                        problems.push((format!("{sck}wrong-event/{window}"), format!("read_event of event #{i} returned another event")));
                     }
                 }
             }
             (Call::StreamVersion | Call::PartitionSequence, Obs::Version(v)) => {
-                let min = if acked_third { 2 } else { 1 };
-                if v.map(|x| x < min).unwrap_or(true) || v.map(|x| x > 2).unwrap_or(false) {
-                    problems.push((format!("version-behind-acked/{}/{window}", call_class(st.call)), format!("{:?} returned {v:?} although version/sequence {min} was acknowledged before the call started", st.call)));
+                let ok = match v {
+                    None => need == 0,
+                    Some(x) => (*x as usize) + 1 >= need && (*x as usize) < n_ev,
+                };
+                if !ok {
+                    problems.push((format!("{sck}version-behind-acked/{}/{window}", call_class(st.call)), format!("{:?} returned {v:?} although version/sequence {} was acknowledged before the call started", st.call, need.saturating_sub(1))));
                 }
             }
             (Call::StreamScanFrom2 | Call::PartitionScanFrom2, Obs::Ids(got)) => {
-                let ok = (got.is_empty() && !acked_third) || *got == vec![idv[2]];
+                let f = sc.first_stepped();
+                let ok = sc.tx_boundaries().iter().any(|&k| k >= need.max(f) && *got == idv[f..k]);
                 if !ok {
-                    let pos: Vec<String> = got.iter().map(|g| idv.iter().position(|x| x == g).map(|p| format!("#{p}")).unwrap_or("?".into())).collect();
-                    problems.push((format!("scan-wrong/{}/{window}", call_class(st.call)), format!("{:?} (from position 2) returned events {pos:?}", st.call)));
+                    problems.push((format!("{sck}scan-wrong/{}/{window}", call_class(st.call)), format!("{:?} (from position {f}) returned events {:?}; events #0..#{} were acknowledged before it started", st.call, posn(got), need as i64 - 1)));
                 }
             }
             (Call::StreamScan | Call::PartitionScan | Call::ReverseStreamScan, Obs::Ids(got)) => {
-                let need = if acked_third { 3 } else { 2 };
-                let mut expect: Vec<u128> = idv[..need].to_vec();
-                let mut expect_all: Vec<u128> = idv.to_vec();
-                if matches!(st.call, Call::ReverseStreamScan) {
-                    expect.reverse();
-                    expect_all.reverse();
-                }
-                let ok = *got == expect || *got == expect_all;
+                let ok = sc.tx_boundaries().iter().any(|&k| {
+                    let mut expect: Vec<u128> = idv[..k].to_vec();
+                    if matches!(st.call, Call::ReverseStreamScan) {
+                        expect.reverse();
+                    }
+                    k >= need && *got == expect
+                });
                 if !ok {
-                    let pos: Vec<String> = got.iter().map(|g| idv.iter().position(|x| x == g).map(|p| format!("#{p}")).unwrap_or("?".into())).collect();
-                    problems.push((format!("scan-wrong/{}/{window}", call_class(st.call)), format!("{:?} returned events {pos:?}; events #0..#{} were acknowledged before it started", st.call, need - 1)));
+                    problems.push((format!("{sck}scan-wrong/{}/{window}", call_class(st.call)), format!("{:?} returned events {:?}; events #0..#{} were acknowledged before it started", st.call, posn(got), need as i64 - 1)));
                 }
             }
             _ => {}
@@ -676,8 +891,8 @@ pub fn run_case(case: &Case, out: &mut WorkerOut) {
     }
     // monotonicity between consecutive observations of the same kind
     for wds in observations.windows(2) {
-        let (s1, o1, _, _) = &wds[0];
-        let (s2, o2, _, _) = &wds[1];
+        let (s1, o1, ..) = &wds[0];
+        let (s2, o2, ..) = &wds[1];
         if s1.call != s2.call {
             continue;
         }
@@ -688,24 +903,39 @@ pub fn run_case(case: &Case, out: &mut WorkerOut) {
             _ => false,
         };
         if back {
-            problems.push((format!("went-backwards/{:?}", s1.call), format!("{:?} observed {o1:?} and later {o2:?}", s1.call)));
+            problems.push((format!("{sck}went-backwards/{:?}", s1.call), format!("{:?} observed {o1:?} and later {o2:?}", s1.call)));
         }
     }
     out.count("reader_steps_blocked_by_lock", blocked_steps);
-    out.state(vcommon::fnv(format!("{:?}", observations.iter().map(|(s, o, a, b)| (s.call, s.split.clone(), a, b, format!("{o:?}").len())).collect::<Vec<_>>()).as_bytes()));
-    out.outcome(format!("{:?}", observations.iter().map(|(s, o, _, _)| format!("{:?}={}", s.call, match o { Obs::Error(_) => "err".to_string(), Obs::Event(e) => format!("{}", e.is_some()), Obs::Version(v) => format!("{v:?}"), Obs::Ids(i) => format!("{}ids", i.len()) })).collect::<Vec<_>>()));
+    out.state(vcommon::fnv(format!("{sc:?}{:?}", observations.iter().map(|(s, o, a, b, k)| (s.call, s.split.clone(), a, b, k.iter().filter(|x| **x).count(), format!("{o:?}").len())).collect::<Vec<_>>()).as_bytes()));
+    out.outcome(format!("{sc:?}{:?}", observations.iter().map(|(s, o, ..)| format!("{:?}={}", s.call, match o { Obs::Error(_) => "err".to_string(), Obs::Event(e) => format!("{}", e.is_some()), Obs::Version(v) => format!("{v:?}"), Obs::Ids(i) => format!("{}ids", i.len()) })).collect::<Vec<_>>()));
     for (k, d) in problems {
-        out.violation(&format!("C15/{k}"), &format!("{d} [steps {}]", serde_json::to_string(&case.steps).unwrap()), case_json.clone());
+        out.violation(&format!("C15/{k}"), &format!("{d} [{sc:?}, steps {}]", serde_json::to_string(&case.steps).unwrap()), case_json.clone());
     }
     if out.cases_done % 60 == 0 {
         out.sample(case_json);
     }
+    drop(h);
 }
+
+const TRAILS_ENV: &str = "VERIF_C15_TRAILS";
 
 pub fn run(args: Args) {
     let tier = args.tier;
-    let plan = Plan { property: "C15", level: "model_checking", cases: cases(tier), cap: if tier.is_thorough() { Duration::from_secs(1700) } else { Duration::from_secs(55) } };
-    drive(args, plan, run_case, |m, total| {
+    // the writer's pause-point sequences: discovered once by the parent (dry run), handed to the workers
+    let trails: Vec<(Scenario, Vec<String>)> = match std::env::var(TRAILS_ENV) {
+        Ok(s) => serde_json::from_str(&s).unwrap_or_else(|e| vcommon::machinery_fail(&format!("{TRAILS_ENV}: {e}"))),
+        Err(_) if args.replay.is_some() => vec![],
+        Err(_) => {
+            let t: Vec<(Scenario, Vec<String>)> = [Scenario::Rollover, Scenario::DeferredRollover].into_iter().map(|sc| (sc, discover_trail(sc).into_iter().map(String::from).collect())).collect();
+            // SAFETY: single-threaded at this point (the dry-run threads have been joined)
+            unsafe { std::env::set_var(TRAILS_ENV, serde_json::to_string(&t).unwrap()) };
+            t
+        }
+    };
+    let parks: Vec<(Scenario, usize)> = trails.iter().map(|(s, t)| (*s, t.len())).collect();
+    let plan = Plan { property: "C15", level: "model_checking", cases: cases(tier, &parks), cap: if tier.is_thorough() { Duration::from_secs(2400) } else { Duration::from_secs(55) } };
+    drive(args, plan, run_case, move |m, total| {
         (
             json!({
                 "states": m.states.len(),
@@ -716,14 +946,18 @@ pub fn run(args: Args) {
                 "schedules_enumerated": total,
                 "schedules_executed": m.cases_done,
                 "distinct_observed_outcomes": m.outcomes.len(),
-                "writer_positions": WRITER_POINTS,
+                "writer_positions_discovered_by_dry_run": trails.iter().map(|(s, t)| json!({"scenario": format!("{s:?}"), "pause_points_in_order": t})).collect::<Vec<_>>(),
                 "reader_split_points": ["read_transaction:after-index-lookup", "get_stream_version:after-live-miss", "get_partition_sequence:after-live-miss", "iter:after-segment-id-load", "iter:before-closed-segments", "segiter:between-cache-and-pool"],
+                "scenarios": {
+                    "Rollover": "sync after every write; two acknowledged appends fill the segment; the stepped append rolls it over",
+                    "DeferredRollover": "sync every 2 events; an acknowledged two-event transaction, then append A written but unsynced (call pending), then the stepped two-event transaction B that rolls the segment over: A is acknowledged by the rollover's sync while the writer is inside the rollover, B by its own sync",
+                },
                 "family_b": "long-lived iterators (stream forward / reverse, partition) opened after 0..6 acknowledged appends, read in up to two instalments with 1..4 and 0..2 further acknowledged appends (each second one seals a segment) in between, then drained; the scan must return a contiguous run from its start position that covers everything acknowledged before it was opened",
-                "rule": "schedule = reader program (1 call unsplit / 1 call split at an internal pause point / 2 calls) x writer positions of each (half-)step, non-decreasing; all of them; every schedule is executed on a real database with the writer thread parked at the stated pause points",
+                "rule": "schedule = reader program (1 call unsplit / 1 call split at an internal pause point / 2 calls) x writer positions of each (half-)step, non-decreasing; all of them; every schedule is executed on a real database with the writer thread parked at the stated pause points; an event counts as acknowledged for a call iff the append call that wrote it had returned when the call started",
             }),
             vec![
                 "seam granularity: writer and reader are stopped at the pause points of hook H2; OS-level interleavings inside a step (rayon broadcast, tokio RwLock hand-off) are not enumerated".into(),
-                "one writer thread, one bucket; family A stops the writer inside the rollover of the third append, family B interleaves iterator steps with whole appends across up to three rollovers".into(),
+                "one writer thread, one bucket; family A stops the writer inside the rollover of one append, family B interleaves iterator steps with whole appends across up to three rollovers".into(),
             ],
         )
     })
